@@ -218,6 +218,76 @@ Section Spec.
   Definition lookup (fs : list (str * value)) (n : str) : value :=
     match find (fun kv => str_eqb (fst kv) n) fs with Some kv => snd kv | None => VNone end.
 
+  (* a field's namespace defaults to the namespace of the class that declares it *)
+  Definition decl_ns (cns : option str) (cf : cdesc * fdesc) : option str :=
+    match cd_meta_ns (fst cf) with
+    | Some n => some_ns (Some n)
+    | None => cns
+    end.
+
+  (* one occurrence of a content field; `rec` renders a nested object under the field's name *)
+  Definition spec_item (rec : option qname -> bool -> value -> list wevent) (cns : option str)
+             (cf : cdesc * fdesc) (x : value) : list wevent :=
+    let f := snd cf in
+    let fq := field_qname f (decl_ns cns cf) in
+    match fd_kind f with
+    | KText => [WData (text_of cv D (fd_format f) x)]
+    | _ =>
+        match x with
+        | VObj _ _ => rec (Some fq) (fd_nillable f) x
+        | _ => spec_simple_element f fq x
+        end
+    end.
+
+  (* the occurrences of a field's value, in order *)
+  Definition spec_occurrences (f : fdesc) (x : value) : list value :=
+    match x with
+    | VNone => if fd_nillable f then [x] else []
+    | VList _ l =>
+        if fd_tokens f then
+          (if fd_list f then l                       (* list of token lists *)
+           else match l with [] => if fd_nillable f then [x] else [] | _ => [x] end)
+        else l
+    | _ => [x]
+    end.
+
+  (* a field outside a sequence group *)
+  Definition spec_plain (rec : option qname -> bool -> value -> list wevent) (cns : option str)
+             (fs : list (str * value)) (cf : cdesc * fdesc) : list wevent :=
+    let f := snd cf in
+    match lookup fs (fd_name f), fd_kind f with
+    | VNone, _ => if fd_nillable f then spec_item rec cns cf VNone else []
+    | x, KText => spec_item rec cns cf x
+    | x, _ => with_wrapper (wrapper_qname f (decl_ns cns cf)) (flat_map (spec_item rec cns cf) (spec_occurrences f x))
+    end.
+
+  (* a sequence group: round-robin over its members *)
+  Definition spec_rounds (rec : option qname -> bool -> value -> list wevent) (cns : option str)
+             (fs : list (str * value)) (grp : list (cdesc * fdesc)) : list wevent :=
+    let cols := map (fun cf => (cf, spec_occurrences (snd cf) (lookup fs (fd_name (snd cf))))) grp in
+    let n := fold_right (fun col acc => Nat.max (length (snd col)) acc) O cols in
+    flat_map (fun j => flat_map (fun col => match nth_error (snd col) j with
+                                            | Some x => spec_item rec cns (fst col) x
+                                            | None => []
+                                            end) cols) (seq 0 n).
+
+  Fixpoint spec_walk (plain : cdesc * fdesc -> list wevent) (rounds : list (cdesc * fdesc) -> list wevent)
+           (fuel : nat) (l : list (cdesc * fdesc)) : list wevent :=
+    match fuel, l with
+    | S k2, cf :: r =>
+        match fd_sequence (snd cf) with
+        | None => plain cf ++ spec_walk plain rounds k2 r
+        | Some s =>
+            let same := fun x => match fd_sequence (snd x) with Some s' => N.eqb s s' | None => false end in
+            let n := length (take_while same r) in                 (* the following members *)
+            rounds (cf :: firstn n r) ++ spec_walk plain rounds k2 (skipn n r)
+        end
+    | _, _ => []
+    end.
+
+  Definition is_attribute_field (cf : cdesc * fdesc) : bool :=
+    match fd_kind (snd cf) with KAttribute => true | _ => false end.
+
   (* fuel: nesting depth of the instance *)
   Fixpoint spec_object (fuel : nat) (ctx : option str) (over : option qname) (fnil : bool) (v : value)
     : list wevent :=
@@ -228,71 +298,15 @@ Section Spec.
         | Some cd =>
             let cns := class_ns cd ctx in
             let q := match over with Some q => q | None => clark cns (class_local cd) end in
-            let inner := cns in                          (* what nested classes inherit: the parent CLASS namespace *)
+            (* nested classes inherit the parent CLASS namespace *)
+            let rec := spec_object k cns in
             let fields := all_fields (length (md_classes D)) D cd in
-            (* a field's namespace defaults to the namespace of the class that declares it *)
-            let fns := fun (cf : cdesc * fdesc) =>
-                         match cd_meta_ns (fst cf) with
-                         | Some n => some_ns (Some n)
-                         | None => cns
-                         end in
-            let attrs := flat_map (fun cf => if match fd_kind (snd cf) with KAttribute => true | _ => false end
-                                             then spec_attribute (snd cf) (fns cf) (lookup fs (fd_name (snd cf)))
+            let attrs := flat_map (fun cf => if is_attribute_field cf
+                                             then spec_attribute (snd cf) (decl_ns cns cf) (lookup fs (fd_name (snd cf)))
                                              else []) fields in
-            (* one occurrence of a content field *)
-            let item := fun (cf : cdesc * fdesc) (x : value) =>
-              let f := snd cf in
-              let fq := field_qname f (fns cf) in
-              match fd_kind f with
-              | KText => [WData (text_of cv D (fd_format f) x)]
-              | _ =>
-                  match x with
-                  | VObj _ _ => spec_object k inner (Some fq) (fd_nillable f) x
-                  | _ => spec_simple_element f fq x
-                  end
-              end in
-            (* the occurrences of a field, in order *)
-            let occurrences := fun (cf : cdesc * fdesc) =>
-              let f := snd cf in
-              let x := lookup fs (fd_name f) in
-              match x with
-              | VNone => if fd_nillable f then [x] else []
-              | VList _ l =>
-                  if fd_tokens f then
-                    (if fd_list f then l                       (* list of token lists *)
-                     else match l with [] => if fd_nillable f then [x] else [] | _ => [x] end)
-                  else l
-              | _ => [x]
-              end in
-            let plain := fun (cf : cdesc * fdesc) =>
-              let f := snd cf in
-              match lookup fs (fd_name f), fd_kind f with
-              | VNone, _ => if fd_nillable f then item cf VNone else []
-              | x, KText => item cf x
-              | x, _ => with_wrapper (wrapper_qname f (fns cf)) (flat_map (item cf) (occurrences cf))
-              end in
-            (* a sequence group: round-robin over its members *)
-            let rounds := fun (grp : list (cdesc * fdesc)) =>
-              let cols := map (fun cf => (cf, occurrences cf)) grp in
-              let n := fold_right (fun col acc => Nat.max (length (snd col)) acc) O cols in
-              flat_map (fun j => flat_map (fun col => match nth_error (snd col) j with
-                                                      | Some x => item (fst col) x
-                                                      | None => []
-                                                      end) cols) (seq 0 n) in
             let content_fields := filter (fun cf => is_content_kind (fd_kind (snd cf))) fields in
-            let fix walk (fuel2 : nat) (l : list (cdesc * fdesc)) : list wevent :=
-              match fuel2, l with
-              | S k2, cf :: r =>
-                  match fd_sequence (snd cf) with
-                  | None => plain cf ++ walk k2 r
-                  | Some s =>
-                      let same := fun x => match fd_sequence (snd x) with Some s' => N.eqb s s' | None => false end in
-                      let n := length (take_while same r) in                 (* the following members *)
-                      rounds (cf :: firstn n r) ++ walk k2 (skipn n r)
-                  end
-              | _, _ => []
-              end in
-            let content := walk (S (length content_fields)) content_fields in
+            let content := spec_walk (spec_plain rec cns fs) (spec_rounds rec cns fs)
+                                     (S (length content_fields)) content_fields in
             let nil := if (fnil || cd_nillable cd) && no_content content then [nil_marker] else [] in
             [WStart q] ++ attrs ++ nil ++ content ++ [WEnd q]
         end
